@@ -284,11 +284,65 @@ def check_return_tags(scratch, res, tag_):
             res.count("return_tag_checks_tooled")
 
 
+SAME_NAME_SRC = """
+from ptera import tag
+class Heater:
+    def step(self, power: tag.A, gain: tag.B = 2):
+        temp: tag.A = power + 20 + gain
+        return temp
+class Cooler:
+    def step(self, power: tag.B, loss: tag.A = 3):
+        temp: tag.B = power - loss
+        return temp
+"""
+
+
+def check_same_named_functions(scratch, res):
+    """Two functions of one module with the same name and different tag layouts, probed one after
+    the other, again, and together: each tag selector captures the tagged bindings of ITS function."""
+    from ptera import probing
+
+    mod = prorun.load_src(SAME_NAME_SRC, scratch, "c11same")
+    ns = vars(mod)
+    want = {
+        ("Heater", "A"): [("power", 1), ("temp", 23)], ("Heater", "B"): [("gain", 2)],
+        ("Cooler", "A"): [("loss", 3)], ("Cooler", "B"): [("power", 1), ("temp", -2)],
+    }
+
+    def run(specs):
+        import contextlib
+
+        outs = {}
+        with contextlib.ExitStack() as stack:
+            for cls, T in specs:
+                got = outs[(cls, T)] = []
+                prb = stack.enter_context(probing(f"{cls}.step > $v:@{T}", env=ns, raw=True))
+                prb.subscribe(lambda d, got=got: got.extend((c.name, c.value) for c in d.values()))
+            mod.Heater().step(1)
+            mod.Cooler().step(1)
+        return outs
+
+    plans = [[("Heater", "A")], [("Cooler", "A")], [("Heater", "A")], [("Heater", "B")], [("Cooler", "B")], [("Heater", "A"), ("Cooler", "A")], [("Cooler", "B"), ("Heater", "B")], [("Heater", "A")]]
+    for k, specs in enumerate(plans):
+        res.evaluations += 1
+        res.deciding += 1
+        try:
+            outs = run(specs)
+        except Exception as e:
+            res.violation({"same_named": k, "specs": specs}, "exception: " + common.fmt_exc(e))
+            continue
+        for key, got in outs.items():
+            if got != want[key]:
+                res.violation({"same_named": k, "specs": specs}, {"what": f"{key[0]}.step > $v:@{key[1]} (step {k} of a sequence over two same-named functions)", "expected": want[key], "got": got})
+        res.count("same_named_function_sequences")
+
+
 def run_shard(spec):
     res = ShardResult()
     if spec.get("part") == "A":
         part_a(res)
         check_return_tags(spec["scratch"], res, "a")
+        check_same_named_functions(spec["scratch"], res)
         res.sample({"part": "A", "example": "tag.B & tag.A & tag.B == tag.A & tag.B"})
         return res.as_dict()
     ilog = InteractLog()
